@@ -125,6 +125,7 @@ template <class E> struct Conf {
     long upper = 2;
     std::string dist;
     uint64_t seed = 0;
+    bool rebuildFirst = false;   // call rebuild() (nothing moved) between construction and execution: a rebuilt tree is a tree like any other
 };
 
 template <class E> std::string confSig(const Conf<E>& c, uint64_t occHash) {
@@ -135,7 +136,8 @@ template <class E> std::string confSig(const Conf<E>& c, uint64_t occHash) {
 template <class E> std::string confDesc(const Conf<E>& c) {
     std::ostringstream os;
     os << "Dim=" << E::Cfg::Dim << " height=" << c.geo.H << " box=" << c.geo.name << " width=" << vh::astr(c.geo.width) << " centre=" << vh::astr(c.geo.center)
-       << " N=" << c.parts.size() << " dist=" << c.dist << " blockSize=" << c.blockSize << " oneGroupPerParent=" << c.oneGroupPerParent << " upper=" << c.upper << " ordering=" << E::orderingName();
+       << " N=" << c.parts.size() << " dist=" << c.dist << " blockSize=" << c.blockSize << " oneGroupPerParent=" << c.oneGroupPerParent << " upper=" << c.upper << " ordering=" << E::orderingName()
+       << (c.rebuildFirst ? " rebuilt-before-execution" : "");
     return os.str();
 }
 
@@ -148,6 +150,7 @@ template <class E> void runSetC01(const Conf<E>& c, Result& res, bool& nontrivia
     const long N = long(c.parts.size());
     const typename E::Cfg cfg(c.geo.H, c.geo.width, c.geo.center);
     typename E::SetTree tree(cfg, c.parts, c.blockSize, c.oneGroupPerParent);
+    if (c.rebuildFirst) { tree.rebuild(); res.ev("trees-rebuilt-before-execution"); }
     TbfAlgorithm<Real, typename E::SetKernel, typename E::Space> algo(cfg, c.upper);
     algo.execute(tree);
 
@@ -232,6 +235,7 @@ template <class E, class Kernel> struct PolyRun {
         setupPolyCtx<E>(ctx, *cfg, c.parts, c.parts, c.seed, true);
         E::PolyKernel::globalCtx() = &ctx;
         tree.reset(new typename E::PolyTree(*cfg, c.parts, c.blockSize, c.oneGroupPerParent));
+        if (c.rebuildFirst) tree->rebuild();
     }
     // imagesLo..imagesHi: interval of periodic images per dimension (the periodic ordering alone, with upper
     // level 1, covers the 3^D nearest images; the top tree extends it)
